@@ -9,7 +9,7 @@ Local Arguments exec : simpl never.
    makes the starting kernel arbitrary), ApplyUpdates with any accepted choices (any failing command, any retries,
    any resync), ApplyDeletions likewise. *)
 Inductive reach (fx : bool) : st → kernel → gmap N (meta * gset member) → Prop :=
-| r_init k0 : reach fx init_st k0 ∅
+| r_init k0 b : reach fx (set_fix2 b init_st) k0 ∅
 | r_add s k D id m ms : reach fx s k D → reach fx (add_or_replace id m ms s) k (<[id := (m, ms)]> D)
 | r_remove s k D id : reach fx s k D → reach fx (remove_ipset id s) k (delete id D)
 | r_change s k D add id ms :
@@ -27,7 +27,7 @@ Proof. intros H [_ [_ G]] n. rewrite G. apply H. Qed.
 
 Lemma reach_inv fx s k D : reach fx s k D -> WF s ∧ rel D s.
 Proof.
-  induction 1 as [k0|s k D id m ms _ [IH1 IH2]|s k D id _ [IH1 IH2]|s k D add id ms _ [IH1 IH2]|s k D _ [IH1 IH2]
+  induction 1 as [k0 b|s k D id m ms _ [IH1 IH2]|s k D id _ [IH1 IH2]|s k D add id ms _ [IH1 IH2]|s k D _ [IH1 IH2]
                  |s k k' D _ IH|s k D obs budget s' k' ev _ [IH1 IH2] Hu|s k D tries s' k' ev rs _ [IH1 IH2] Hd].
   - split; [split; simpl; intros n Hn; try (rewrite lookup_empty in Hn; by destruct Hn); set_solver|].
     intros n. unfold wants, want_of. simpl. rewrite !lookup_empty. by destruct (n.1 =? 0).
@@ -214,4 +214,33 @@ Definition fk_checks : bool :=
   && match fk_r6 with Some (_, _, [], false) => true | _ => false end
   && converged lk_D ∅ (d_k fk_r6).
 Lemma fk_checks_true : fk_checks = true.
+Proof. vm_compute. reflexivity. Qed.
+
+(* ---------------------------------------------------------------- the inherited DeleteFailed flag (second finding) *)
+(* kernel {cali40s0: maxelem 100 {10.0.0.1}}, nothing desired: start-of-day apply, the destroy of cali40s0 is refused;
+   AddOrReplaceIPSet(s0, maxelem 200, {10.0.0.1}); apply: temp set + swap; ApplyDeletions attempts nothing. *)
+Definition fl_run (fix2 : bool) :=
+  let r1 := apply_updates true [mkAtt [main_name 0] [] [] None false] None lk_k0 (set_fix2 fix2 init_st) in
+  let r2 := apply_deletions [(main_name 0, true)] (u_k r1) (u_s r1) in
+  let s3 := add_or_replace 0 lk_m2 {[ (0, 1) ]} (d_s r2) in
+  let r3 := apply_updates true [mkAtt [] [] [(main_name 0, [CCreate (temp_name 0) lk_m2; CAdd (temp_name 0) (0, 1);
+                                                            CSwap (main_name 0) (temp_name 0)])] None false]
+                          None (d_k r2) s3 in
+  (r1, r2, r3).
+Definition fl_D : gmap N (meta * gset member) := <[0 := (lk_m2, {[ (0, 1) ]})]> ∅.
+(* unrepaired: no destroy is attempted, the temporary set stays and the oracle's `converged` is false *)
+Definition fl_checks : bool :=
+  let '(r1, r2, r3) := fl_run false in
+  let r4 := apply_deletions [] (u_k r3) (u_s r3) in
+  isS r1 && isS r2 && isS r3 && isS r4
+  && match r4 with Some (_, _, [], false) => true | _ => false end
+  && isS (d_k r4 !! temp_name 0) && negb (converged fl_D ∅ (d_k r4)).
+Lemma fl_checks_true : fl_checks = true.
+Proof. vm_compute. reflexivity. Qed.
+(* repaired: the temporary set is destroyed and the end state is converged *)
+Definition fl_fixed_checks : bool :=
+  let '(r1, r2, r3) := fl_run true in
+  let r4 := apply_deletions [(temp_name 0, false)] (u_k r3) (u_s r3) in
+  isS r1 && isS r2 && isS r3 && isS r4 && converged fl_D ∅ (d_k r4).
+Lemma fl_fixed_checks_true : fl_fixed_checks = true.
 Proof. vm_compute. reflexivity. Qed.
